@@ -56,7 +56,15 @@ def main():
         subprocess.run(["git", "-C", "/repo", "reset", "-q"], stdout=subprocess.DEVNULL, stderr=subprocess.DEVNULL)
         subprocess.run(["git", "-C", "/repo", "checkout", "--", "."])
         # failing replays written during the run stay under /verif/failures (ignored by git)
-    json.dump(results, open(os.path.join(d, "check_results.json"), "w"), indent=1)
+    out = os.path.join(d, "check_results.json")
+    merged = {}
+    if os.path.exists(out):
+        try:
+            merged = json.load(open(out))
+        except ValueError:
+            merged = {}
+    merged.update(results)
+    json.dump(merged, open(out, "w"), indent=1, sort_keys=True)
     return 0
 
 
